@@ -337,6 +337,10 @@ func (r *responseBuilder) buildFromStruct(decl *entityDecl, tpe *types.Struct, r
 		if err != nil {
 			return err
 		}
+		if len(afld.Names) > 1 && name == afld.Names[0].Name {
+			// `A, B string`: one declaration, several fields, each under its own name
+			name = fld.Name()
+		}
 		if ignore {
 			continue
 		}
